@@ -49,6 +49,9 @@ var c14Acts = []struct {
 	{"act-missing-fact", []string{"F.I = F.I + 1", "Z.I = 1", "F.I2 = 5"}},
 	{"act-rhs-fails", []string{"F.I = F.I + 1", "F.I2 = F.P.V + 1", "F.I2 = 4"}},
 	{"selector-goes-out-of-range", []string{"F.K = 7", "F.Act(%a)"}},
+	{"complete-then-error", []string{"F.I = F.I + 1", "Complete()", "F.Arr[7] = 1", "F.I2 = 3"}},
+	{"complete-then-probe", []string{"Complete()", "F.Act(%a)", "F.I2 = 2"}},
+	{"retract-then-error", []string{`Retract("r2")`, "F.I = F.I + 1", `F.I8 = "x"`}},
 }
 
 func c14Rule(i int, ci, ai int) *grl.Rule {
